@@ -64,7 +64,9 @@ func runForwarding(r *Run, prop string) {
 		mode = config.VelocityForwardingMode
 	}
 	secret := fmt.Sprintf("s3cret-%d", r.W.Pick(1000))
-	prots := []proto.Protocol{version.Minecraft_1_20_2.Protocol, version.Minecraft_1_20.Protocol, version.Minecraft_1_15.Protocol, version.Minecraft_1_19_4.Protocol, version.Minecraft_1_21.Protocol, version.Minecraft_1_13.Protocol, version.Minecraft_1_12_2.Protocol, version.Minecraft_1_8.Protocol, version.Minecraft_1_16_4.Protocol}
+	prots := []proto.Protocol{version.Minecraft_1_20_2.Protocol, version.Minecraft_1_20.Protocol, version.Minecraft_1_15.Protocol, version.Minecraft_1_19_4.Protocol, version.Minecraft_1_21.Protocol, version.Minecraft_1_13.Protocol, version.Minecraft_1_12_2.Protocol, version.Minecraft_1_8.Protocol, version.Minecraft_1_16_4.Protocol,
+		// the forwarding version boundaries: 1.19 (key), 1.19.1 (linked key), 1.19.3 (no key)
+		version.Minecraft_1_19.Protocol, version.Minecraft_1_19_1.Protocol, version.Minecraft_1_19_3.Protocol, version.Minecraft_1_18_2.Protocol}
 	prot := prots[r.W.Pick(len(prots))]
 	if mode == config.VelocityForwardingMode && prot.Lower(version.Minecraft_1_13) {
 		prot = version.Minecraft_1_13.Protocol
@@ -74,6 +76,7 @@ func runForwarding(r *Run, prop string) {
 	}
 	w := newClassic(r, []string{"lobby"}, func(cfg *config.Config) {
 		cfg.Forwarding.Mode = mode
+		cfg.ForceKeyAuthentication = false // 1.19-1.19.2 clients without a profile key are admitted
 		cfg.Forwarding.VelocitySecret = secret
 		cfg.Forwarding.BungeeGuardSecret = secret
 	})
